@@ -59,7 +59,8 @@ def gen_plan(run_seed, idx, tier):
     for c in range(2 if two else 1):
         chains.append({'seed': rng.bytes(rng.choice([0, 1, 16, 32, 32, 64])).hex(),
                        'n': n if c == 0 else rng.rng(2, 4),
-                       'flags': rng.choice(['00', '00', '01', '03']), 'refund': refund and c == 0,
+                       'flags': rng.choice(['00', '00', '01', '03', '80', '81', 'a5', '40', 'ff']),
+                       'refund': refund and c == 0,
                        'refund_hops': None if rng.chance(1, 2) else
                        sorted(rng.sample(range(8), rng.rng(1, 4))),
                        'timeout': rng.choice([30, 60, 3600]),
